@@ -17,6 +17,7 @@
 -/
 import JSV.Proofs.InfSound
 import JSV.Proofs.InfNamed
+import JSV.Proofs.InfTable
 import JSV.Proofs.InfEmbSound
 import JSV.Proofs.EncEmbCons
 namespace JSV.C04
@@ -188,6 +189,54 @@ theorem infer_sound_initial_table (opts : IOpts) (fuel : Nat) (T : GoType) (st :
   infer_sound_named opts marshalerTypes fuel T st id st' re hnfs hdom (by rw [htbl]; exact strEntries_initial st hss) hok
     h v hv fuel' hf
 
+/-! ### any entry of the type table (`ForOptions.TypeSchemas`) -/
+
+/-- **main, with entries of the type table (partial)**.  A declared type with an entry in the type table gets a clone of
+    the entry, with `null` added to its types for a pointer.  If every entry that `ForType` meets in `T` accepts the
+    encodings of its type (`EntriesAccept`: for every declared type `.named n u` of `T` with an entry `sid` — outside
+    `json:"-"` fields — `EntryAccepts st sid u an`: the entry is a schema without subschemas and references; it accepts
+    `encode u v` for every value `v` of the type; where the type is used through a pointer, the entry has a type keyword
+    and, with `null` added, accepts `null`), the schema `ForType` returns accepts the JSON encoding of every value of `T`.
+    Declared types without an entry are expanded (`C16.named_pushes_seen`) and need no hypothesis: if a name recurs along
+    a path, or the underlying type is not one the model knows, `ForType` does not return a schema.
+
+    `entryAccepts_string`: the entry `{"type":"string"}` accepts every marshaler type whose JSON form is a string
+    (`.named n (.basic "String")`), so this statement contains `infer_sound_named`'s marshaler types; with an empty
+    table it is `infer_sound` for types with declared types (`entriesAccept_of_empty`).
+
+    Partial, what is missing: entries WITH subschemas or references (the ingredients are there: the clone validates like
+    the entry for reference-free trees, `C20.clone_validates_same_partial`; to be combined with invariance of validity
+    under the later growth of the store); an entry without a type keyword reached through a pointer (known finding D17:
+    its types become `["null"]`); an entry that rejects some encoding, of course (big.Int's, D13). -/
+theorem infer_sound_table_partial (opts : IOpts) (fuel : Nat) (T : GoType) (st : Store) (id : NodeId) (st' : Store)
+    (re : String → String → Bool) (hnfs : opts.nullForSlices = true) (hdom : InDomainN T = true)
+    (hacc : EntriesAccept opts st false T) (h : forType opts fuel T st = .ok (some id, st')) (v : GoValue)
+    (hv : HasType T v) (fuel' : Nat) (hf : depth T ≤ fuel') :
+    Spec.valid (specEnvNoRefs st' re) fuel' id (encode T v) = some true := by
+  obtain ⟨id', hid, hm⟩ := inferFuel_modelsT opts hnfs st fuel T [] st (some id) st' (Ext.refl st) hdom hacc h
+  cases hid
+  rw [hnfs] at hm
+  exact valid_iff_isSome.1 ((Models.sound (re := re) T false id hm fuel' [] hf).2 v hv)
+
+/-- … and `ForType` never drops such a type -/
+theorem infer_some_table_partial (opts : IOpts) (fuel : Nat) (T : GoType) (st : Store) (r : Option NodeId) (st' : Store)
+    (hnfs : opts.nullForSlices = true) (hdom : InDomainN T = true) (hacc : EntriesAccept opts st false T)
+    (h : forType opts fuel T st = .ok (r, st')) : ∃ id, r = some id := by
+  obtain ⟨id, hid, _⟩ := inferFuel_modelsT opts hnfs st fuel T [] st r st' (Ext.refl st) hdom hacc h
+  exact ⟨id, hid⟩
+
+/-- the entry `{"type":"string"}` accepts the encodings of every marshaler type whose JSON form is a string, by value and
+    through a pointer -/
+theorem string_entry_accepts (st : Store) (sid : NodeId) (h : st.get? sid = some strNode) (an : Bool) :
+    EntryAccepts st sid (.basic "String") an :=
+  entryAccepts_string h an
+
+/-- without entries for the declared types there is nothing to assume: `infer_sound_table_partial` is then `infer_sound`
+    for every type with declared types on which `ForType` returns a schema -/
+theorem no_entries_nothing_assumed (opts : IOpts) (st : Store) (h : opts.schemas = []) (T : GoType) :
+    EntriesAccept opts st false T :=
+  (entriesAccept_of_empty opts st h).1 T false
+
 /-! ### the hypotheses of `infer_sound_named` are satisfiable, and needed (labelled tests)
 
   `tagLookup` splits the tag with `String.splitOn`, which the kernel does not evaluate; what the tag parser returns for
@@ -271,6 +320,79 @@ example (id : NodeId) (st' : Store)
   simpa [readingT, pointT, encode, encodeFields, hT, hO, hP, hA, hX, hY, fieldSkipped, isEmptyValue] using this
 
 end WitnessesN
+
+/-! ### the hypotheses of `infer_sound_table_partial` are satisfiable (labelled tests) -/
+
+/-- an entry `{"type": ty}` accepts the encodings of a type all of whose encodings have the JSON type `ty` -/
+theorem type_entry_accepts (st : Store) (sid : NodeId) (ty : String) (u : GoType) (hty : ty ≠ "")
+    (h : st.get? sid = some { type := ty }) (hu : ∀ v, HasType u v → typeMatches ty (encode u v) = true) (an : Bool) :
+    EntryAccepts st sid u an :=
+  entryAccepts_typeOnly hty h hu an
+
+/-- `Reading` and the initial table: the one entry met is time.Time's -/
+theorem reading_entriesAccept (tT tO tP tA tX tY : String) :
+    EntriesAccept initialOpts #[strNode] false (readingT tT tO tP tA tX tY) := by
+  simp [readingT, pointT, EntriesAccept, EntriesAcceptFields, initialOpts, initialTable, Json.lookup]
+  exact Or.inr (string_entry_accepts _ _ rfl false)
+
+/-- `infer_sound_table_partial` applied to `Reading` (no `NamedOk` is asked for) -/
+example (tT tO tP tA tX tY : String)
+    (hT : fieldJSONInfo "Temp" tT = { name := "temp" }) (hO : fieldJSONInfo "Origin" tO = { name := "origin" })
+    (hP : fieldJSONInfo "Path" tP = { name := "path" }) (hA : fieldJSONInfo "At" tA = { name := "at" })
+    (hX : fieldJSONInfo "X" tX = { name := "x" }) (hY : fieldJSONInfo "Y" tY = { name := "y", omitempty := true })
+    (id : NodeId) (st' : Store) (h : forType initialOpts 5 (readingT tT tO tP tA tX tY) #[strNode] = .ok (some id, st')) :
+    Spec.valid (specEnvNoRefs st') 6 id
+      (.obj [("temp", .num 20), ("origin", .obj [("x", .num 0)]), ("path", .arr [.obj [("x", .num 1)]]),
+             ("at", .str "2026-09-30T00:00:00Z")]) = some true := by
+  have := infer_sound_table_partial initialOpts 5 _ #[strNode] id st' (fun _ _ => false) rfl
+    (reading_inDomainN tT tO tP tA tX tY hT hO hP hA hX hY) (reading_entriesAccept tT tO tP tA tX tY) h _
+    (reading_hasType tT tO tP tA tX tY hT hO hP hA hX hY) 6 (by simp [readingT, pointT, depth, depthFields])
+  simpa [readingT, pointT, encode, encodeFields, hT, hO, hP, hA, hX, hY, fieldSkipped, isEmptyValue] using this
+
+/-- `type Celsius float64` with `TypeSchemas[Celsius] = {"type":"number"}`, used through a pointer:
+    `struct { T *Celsius "json:\"t\"" }` -/
+def celsiusOpts : IOpts := { schemas := [("Celsius", 0)] }
+
+theorem celsius_entriesAccept (tT : String) :
+    EntriesAccept celsiusOpts #[{ type := "number" }] false (.struct [("T", tT, .ptr (.named "Celsius" (.basic "Float64")))]) := by
+  simp [EntriesAccept, EntriesAcceptFields, celsiusOpts]
+  refine Or.inr (entryAccepts_typeOnly (by decide) rfl (fun v hv => ?_) true)
+  cases v with
+  | float q => by_cases hq : q.den = 1 <;> simp [encode, typeMatches, Json.typeName, hq]
+  | int i => obtain ⟨lo, hi, hr, _⟩ := (show ∃ lo hi, intRange "Float64" = some (lo, hi) ∧ lo ≤ i ∧ i ≤ hi from hv); simp [intRange] at hr
+  | _ => simp [HasType, basicHasType] at hv
+
+
+/-- `infer_sound_table_partial` applied: `{"t":null}` (the nil pointer) and `{"t":20}` are accepted by the schema inferred
+    with `TypeSchemas[Celsius] = {"type":"number"}` -/
+example (tT : String) (hT : fieldJSONInfo "T" tT = { name := "t" }) (id : NodeId) (st' : Store)
+    (h : forType celsiusOpts 3 (.struct [("T", tT, .ptr (.named "Celsius" (.basic "Float64")))]) #[{ type := "number" }]
+      = .ok (some id, st')) :
+    Spec.valid (specEnvNoRefs st') 3 id (.obj [("t", .null)]) = some true ∧
+    Spec.valid (specEnvNoRefs st') 3 id (.obj [("t", .num 20)]) = some true := by
+  have hd : InDomainN (.struct [("T", tT, .ptr (.named "Celsius" (.basic "Float64")))]) = true := by
+    have v1 : validTagName "t" = true := by decide
+    have d1 : "Float64" ∈ domainKinds := by decide
+    simp [InDomainN, inDomainFieldsN, jsonNames, nodup, fieldTagOk, hT, v1, d1]
+  have key := fun v hv => infer_sound_table_partial celsiusOpts 3 _ #[{ type := "number" }] id st' (fun _ _ => false) rfl hd
+    (celsius_entriesAccept tT) h v hv 3 (by simp [depth, depthFields])
+  constructor
+  · have := key (.struct [.nilPtr]) (by simp [HasType, HasTypeFields, hT])
+    simpa [encode, encodeFields, hT, fieldSkipped] using this
+  · have := key (.struct [.ptr (.float 20)]) (by simp [HasType, HasTypeFields, hT, basicHasType, floatKinds])
+    simpa [encode, encodeFields, hT, fieldSkipped] using this
+
+/-- … and evaluated (no tag: the field name is `T`), with a non-number rejected -/
+example : (match forType celsiusOpts 3 (.ptr (.named "Celsius" (.basic "Float64"))) #[{ type := "number" }] with
+    | .ok (some id, st') => [Spec.valid (specEnvNoRefs st') 1 id .null, Spec.valid (specEnvNoRefs st') 1 id (.num 20),
+        Spec.valid (specEnvNoRefs st') 1 id (.str "x")]
+    | _ => []) = [some true, some true, some false] := by decide
+
+/-- the hypothesis on the type keyword is needed (known finding D17): `TypeSchemas[Celsius] = {}` ("anything") reached
+    through a pointer becomes `{"type":["null"]}`, which rejects every number -/
+example : (match forType celsiusOpts 3 (.ptr (.named "Celsius" (.basic "Float64"))) #[{}] with
+    | .ok (some id, st') => [Spec.valid (specEnvNoRefs st') 1 id .null, Spec.valid (specEnvNoRefs st') 1 id (.num 20)]
+    | _ => []) = [some true, some false] := by decide
 
 /-- `NamedOk` is needed, (1): a name that occurs twice along ONE path — how a recursive declaration looks in the type
     language — makes `forType` fail (the cycle check, `C16.recursive_*_errors`), although the erased type has a schema -/
